@@ -58,3 +58,19 @@ TEXT.update({
                             'refused and recoverable, moved-from owners inert, owners released after destroy_sandbox harmless. Sampling evidence.'),
                 design_ref='DESIGN.md section 5, C13', level_note=_CB_NOTE, technique='deterministic simulation: seeded ownership histories with capacity faults vs reference model, shrinking, replay'),
 })
+
+TEXT.update({
+    'C11': dict(level_text=('Guest-side log and returned value compared with a 128-bit reference conversion for every invocation of seeded histories over several live instances bound '
+                            'to different libraries (same names, different table indices), including lookup-order histories (address before/after invoke) and destroy/re-create with another '
+                            'library; real dlsym-based instances for the per-instance symbol clause. Sampling evidence.'),
+                design_ref='DESIGN.md section 5, C11', level_note=_CB_NOTE, technique='deterministic simulation: two-party invoke exchange over several instances vs reference conversion, shrinking, replay'),
+})
+
+TEXT.update({
+    'C09': dict(level_text=('Fault enumeration: for every copy_and_verify variant, both source placements and three lengths, a guest mutation is injected at every single access RLBox '
+                            'makes to sandbox memory (trap-MMU), for every mutation kind; plus seeded multi-fault runs and longer sources. Oracles: object in application memory, '
+                            'stable while the guest scribbles during the verifier and after return, provenance of every delivered byte, string length/terminator, no sandbox access '
+                            'after the verifier is entered. Exhaustive only for the stated single-fault grid.'),
+                design_ref='DESIGN.md section 5, C09', level_note='Trusted: trap-MMU (kernel mprotect/TF semantics), sim backend stub. Real code: all of /repo/code/include core. x86-64/Linux only.',
+                technique='deterministic simulation: trap-MMU interleaving of guest writes at every RLBox access to sandbox memory, enumerated single-fault grid + seeded multi-fault runs, shrinking, replay'),
+})
